@@ -3,7 +3,7 @@
 From Coq Require Import ZArith.
 From PV Require Import Lib.Base Model.Prng Model.Core Model.Experiment.
 From mathcomp Require Import all_ssreflect.
-From PV Require Import Proofs.ExperimentProofs.
+From PV Require Import Proofs.ExperimentProofs Proofs.ExperimentStrataProofs.
 
 (* Invariant of every reachable state: over ANY finite sequence of randomize / sim_npc / westfall_young
    operations with any mix of in_place, reseeding and forks, on any tapes, the responses, the strata and the
@@ -40,6 +40,18 @@ Theorem C17_stratified_pass_conserves_labels : forall (s : seq Z) labels (g : se
   size s = size g -> strata_loop g s labels t = Ok (g', t') -> perm_eq g' g /\ size g' = size g.
 Proof. exact strata_loop_perm. Qed.
 Print Assumptions C17_stratified_pass_conserves_labels.
+
+(* ... and over ANY history: for the stratified randomizer every reachable state holds, in EACH stratum
+   (first covariate value k), exactly the labels that stratum started with *)
+Theorem C17_reachable_states_conserve_labels_within_each_stratum :
+  forall e0 st ops e' outs, wf e0 -> strata e0 = Some st -> kind e0 = Strat ->
+  run e0 ops = Ok (e', outs) ->
+  forall k, perm_eq (stratum_labels st (group e') k) (stratum_labels st (group e0) k).
+Proof.
+  intros e0 st ops e' outs w s0 k0 H.
+  exact (@run_within e0 st w s0 k0 ops e0 e' outs (Inv_refl e0) (fun k => perm_refl _) H).
+Qed.
+Print Assumptions C17_reachable_states_conserve_labels_within_each_stratum.
 
 (* a seeded randomization from the same assignment is reproducible: step is a function of (state, op) *)
 Theorem C17_seeded_reproducible : forall e o r1 r2, step e o = r1 -> step e o = r2 -> r1 = r2.
